@@ -149,6 +149,43 @@ fn decompose(ctx: &Ctx) -> SubReport {
 }
 
 /// arguments outside the geometric domain: no crash, None or a vector of valid indices
+/// large topologies ("for every total size"): long 1-dimensional lines and big squares / cubes,
+/// where coordinate differences reach 10^4 .. 10^6
+fn large(ctx: &Ctx) -> SubReport {
+    let mut work = vec![];
+    for (n, d) in [(46_340usize, 1usize), (46_341, 1), (46_342, 1), (65_537, 1), (100_000, 1), (300_000, 1), (100_000, 2), (250_000, 2), (100_000, 3), (4_097, 12)] {
+        for c in [0usize, 1, n / 2, n - 1] {
+            for r in [0.0f32, 1.0, 1.5, 3.0, 1000.5, 46_341.5, 1e9] {
+                work.push((n, d, c, r));
+            }
+        }
+    }
+    let mut rep = par_map(ctx, "large-topologies", work.len() as u64, |i, rep| {
+        let (n, d, c, r) = work[i as usize];
+        rep.evaluations += 1;
+        let case = json!({"ntotal": n, "ndim": d, "centre": c as u64, "radius": fjson(r)});
+        crate::supervise::journal_value(&json!({"kind": "c20", "ntotal": n, "ndim": d}));
+        match guarded(|| Topology::find_neighbors(&n, &d, &c, &r)) {
+            Err((l, m)) => rep.fail(ctx, Fail::new(format!("C20/find_neighbors/panic@{}", l), format!("ntotal {} ndim {} centre {} radius {}: {}", n, d, c, r, m)), case),
+            Ok(got) => {
+                let want = neighbours(n, d, c, r as f64);
+                if got.as_ref().map(|v| &v.values) != want.as_ref() {
+                    let (g, w) = (got.map(|v| v.values.len()), want.map(|v| v.len()));
+                    rep.fail(ctx, Fail::new("C20/neighbour-set", format!("ntotal {} ndim {} centre {} radius {}: {:?} neighbours returned, the Euclidean ball holds {:?}", n, d, c, r, g, w)), case);
+                } else {
+                    rep.nontrivial.insert(i);
+                    if i % 40 == 0 {
+                        rep.sample(case);
+                    }
+                }
+            }
+        }
+    });
+    rep.exhaustive = true;
+    rep.notes.push("10 large (ntotal, ndim) pairs x 4 centres x 7 radii compared with the brute-force Euclidean ball".into());
+    rep
+}
+
 fn robustness(ctx: &Ctx) -> SubReport {
     let ns = [0usize, 1, 2, 5, 64];
     let ds = [0usize, 1, 2, 7, 20, 64, 1000];
@@ -262,6 +299,7 @@ pub fn run(ctx: &Ctx) -> PropReport {
     rep.push(grid(ctx));
     rep.push(decompose(ctx));
     rep.push(robustness(ctx));
+    rep.push(large(ctx));
     rep.push(random_order(ctx, ctx.tier.pick(30_000, 300_000)));
     rep.push(run_sharded(ctx, "instructions", ctx.tier.pick(150_000, 1_000_000), instr_strategy, |(n, s): &(String, StateSpec)| judge_instr_case(n, s), |(n, s)| json!({"instruction": n, "state": s.to_json(), "brief": s.brief()})));
     for r in crate::props::incontext::run_all(ctx, ctx.tier.pick(40_000, 600_000)) {
